@@ -205,7 +205,7 @@ def evaluate(ctx, case, tags=(), nontrivial=True):
     rep = ctx.driver.ask(req)
     ctx.count("op=%s" % op["op"])
     ctx.count("outcome=%s:%s" % (op["op"], "ok" if "ok" in result else result["error"]))
-    if rep.get("guard", True) and not rep.get("model_holds", True):
+    if not rep.get("model_holds", True):
         ctx.diverge(full, "theorem model_holds contradicted by the driver: %s" % rep.get("model_clause"), tags)
     if not rep["holds"]:
         ctx.fail(full, "%s.%s" % (op["op"], rep["clause"]), tags, detail={"model": rep["model"]})
@@ -412,14 +412,15 @@ def fixed_corpus(ctx):
 
 
 def degenerate_stream(ctx, specs):
-    """calls whose id_map is empty (nothing to rename)"""
+    """calls whose id_map is empty (nothing to rename): `update_ids({}, ...)` raised ValueError from max([])
+    before the repair c0839305; these inputs run first"""
     for spec in specs[:2]:
         for ax in AX:
             for strict in (True, False):
                 for inplace in (True, False):
                     evaluate(ctx, mk_case(spec, "dense", [], {"op": "update_ids", "id_map": [], "axis": ax,
                                                               "strict": strict, "inplace": inplace}),
-                             ("degenerate", "empty-id-map"), nontrivial=False)
+                             ("fixed", "empty-id-map"))
 
 
 def exhaustive_perms(ctx, specs, routes):
@@ -564,9 +565,9 @@ def run(ctx):
                    "sort functions are a named family; the list a function returned is an input of the model"]
     ctx.assumptions = ["values are only carried, never computed with: exact as rationals of the stored doubles"]
     quick = ctx.quick()
-    fixed_corpus(ctx)
     specs = small_specs(ctx.rng)
     degenerate_stream(ctx, specs)
+    fixed_corpus(ctx)
     routes = ["dense", "csc", "csr_unsorted"] if quick else list(core.ROUTES)
     exhaustive_perms(ctx, specs[:3] if quick else specs, routes if not quick else routes[:2])
     ctx.exhaustive = False
